@@ -16,6 +16,7 @@ import (
 	"encoding/hex"
 	"fmt"
 	"io"
+	"os"
 	"sort"
 	"strings"
 	"sync"
@@ -31,6 +32,11 @@ import (
 )
 
 const prop = "C09"
+
+// Diagnostic knob (mutation experiments only): STORAGE_SKIP_BUFCHECK_AFTER_EXECUTE=1
+// disables the "every buffer released when Execute returns" check, to see
+// which of the later oracles also catches a change.
+var skipBufferCheckAfterExecute = os.Getenv("STORAGE_SKIP_BUFCHECK_AFTER_EXECUTE") != ""
 
 // Outcome of the (fake) innermost executor; a scenario parameter.
 const (
@@ -49,9 +55,18 @@ type actionCfg struct {
 	outcome int
 	dnc     bool // Action.do_not_cache
 	attach  bool // innermost executor attaches Put errors to its response (like LocalBuildExecutor) or ignores them
+
+	// real-outputs scenarios: the result is produced by the real
+	// OutputHierarchy for this Command.output_directory_format / force flag.
+	real   bool
+	format int32
+	force  bool
 }
 
 func (c actionCfg) String() string {
+	if c.real {
+		return fmt.Sprintf("real-outputs/format=%d/force=%v/%s/dnc=%v", c.format, c.force, outcomeNames[c.outcome], c.dnc)
+	}
 	return fmt.Sprintf("[%s]/%s/dnc=%v/attach=%v", strings.Join(c.blobs, ""), outcomeNames[c.outcome], c.dnc, c.attach)
 }
 
@@ -95,6 +110,7 @@ type world struct {
 	failedCtx map[context.Context]bool
 	buffers   []*trackedReader
 	nextIdx   int
+	nextMsg   int // next "M<k>" name (realout.go)
 	multi     bool // several actions run concurrently: labels carry the action index
 	acts      []*actionState
 	parked    int // threads parked inside a fake storage call (at its choice point)
@@ -259,6 +275,8 @@ func (w *world) protoKey(d *remoteexecution.Digest) string {
 // ("her" = the HistoricalExecuteResponse or anything else the code under
 // test computed itself).
 func (w *world) nameOf(d digest.Digest) string {
+	w.mu.Lock()
+	defer w.mu.Unlock()
 	if n, ok := w.names[w.key(d)]; ok {
 		return n
 	}
@@ -513,7 +531,9 @@ func (w *world) checkResponse(cur *actionState, resp *remoteexecution.ExecuteRes
 			w.fail("response/advertises-digests/"+adv[0], "response still advertises digests in %v although output writes/flush failed: faults=%v flushFailed=%v %s", adv, cur.faults, cur.flushFailed, cur.cfg)
 		}
 	}
-	w.checkBuffers(cur, "after Execute")
+	if !skipBufferCheckAfterExecute {
+		w.checkBuffers(cur, "after Execute")
+	}
 	w.x.Logf("action %d (%s): response status=%v exit=%d advertised=%v cached=%v faults=%v flushFailed=%v", cur.idx, cur.cfg, resp.GetStatus(), resp.GetResult().GetExitCode(), adv, cached, cur.faults, cur.flushFailed)
 	w.x.Outcome("a%d:%s faults=%d/%d err=%v cached=%v adv=%d flushfail=%v", cur.idx, cur.cfg, len(cur.faults), cur.batchFaults, isErr, cached, len(adv), cur.flushFailed)
 }
